@@ -7,6 +7,7 @@ import Driver.Mqtt
 import Driver.CalCfg
 import Driver.KeepAlive
 import Driver.Countdown
+import Driver.Debounce
 
 def main (args : List String) : IO UInt32 := do
   match args with
@@ -19,4 +20,5 @@ def main (args : List String) : IO UInt32 := do
   | ["calcfg"] => Driver.CalCfgDrv.main; return 0
   | ["keepalive"] => Driver.KeepAliveDrv.main; return 0
   | ["countdown"] => Driver.CountdownDrv.main; return 0
+  | ["debounce"] => Driver.DebounceDrv.main; return 0
   | _ => IO.eprintln "usage: svdrv <subsystem>"; return 2
